@@ -55,6 +55,11 @@ class L:
             return eng.deref(st, v)
         raise AttributeError(name)
 
+    def head(self, ordinal):
+        """view of the state at the head of the enclosing loop `ordinal` in the current iteration (while loops and symbolic for loops)"""
+        st = object.__getattribute__(self, "_st")
+        return st.ghost[("head", ordinal)]
+
     def field(self, obj, name):
         st = object.__getattribute__(self, "_st")
         eng = object.__getattribute__(self, "_eng")
@@ -990,6 +995,7 @@ class Engine:
         s = st
         self._havoc(node, spec, s)
         self._assume_inv(spec, s, {"_pre": pre})
+        s.ghost[("head", node._loop_ordinal)] = L(self, s.fork(), {})      # the state at the head of THIS iteration, for inner loop invariants
         snap = self._frame_snapshot(s)
         for s1, c in self.ev(node.test, s):
             if isinstance(c, ExcVal):
@@ -1232,6 +1238,7 @@ class Engine:
         s.frame.vars[f"_loop{node._loop_ordinal}_i"] = i
         s.frame.vars[f"_loop{node._loop_ordinal}_seq"] = seq
         self._assume_inv(spec, s, {"_i": i, "_seq": seq, "_pre": pre})
+        s.ghost[("head", node._loop_ordinal)] = L(self, s.fork(), {"_i": i, "_seq": seq})
         snap = self._frame_snapshot(s)
         tnames = {n.id for n in ast.walk(node.target) if isinstance(n, ast.Name)}
         for s1, more in self.branch(s, i.z < seq.n, f"for{self.line(s, node)}"):
